@@ -112,7 +112,7 @@ def scenario(cfg, n_resume, seed2, second_gen=False):
             hk.wrap(SamplerCore, "save_sampler_state", after=after)
             attach.iteration_budget(hk, 400)
             try:
-                s.run(n_total=c["n_total"], progress=bool(c.get("progress")), save_every=1)
+                s.run(n_total=c["n_total"], progress=runs.prog(c), save_every=1)
             except Exception as e:
                 key = "save-raises-with-pool" if c.get("pool") is not None else "run-with-save-every-raises"
                 out["bad"].append((key, f"run(save_every=1) raised {type(e).__name__}: {e} (pool={c.get('pool')!r})"))
@@ -166,7 +166,7 @@ def scenario(cfg, n_resume, seed2, second_gen=False):
             try:
                 with attach.Hooks() as hk:
                     attach.iteration_budget(hk, 400)
-                    s3.run(n_total=nt3, progress=bool(c.get("progress")),
+                    s3.run(n_total=nt3, progress=runs.prog(c),
                            resume_state_path=(__import__("pathlib").Path(sv["path"]) if c.get("pathlib") else sv["path"]))
             except Exception as e:
                 out["bad"].append(("resume-raises", f"run(resume_state_path={os.path.basename(sv['path'])}) raised {type(e).__name__}: {e}\n{fmt_exc()[-500:]}"))
@@ -213,7 +213,7 @@ def scenario(cfg, n_resume, seed2, second_gen=False):
                     c2 = dict(c, output_dir=tmp2)
                     s4 = _build(c2, tmp2)[0]
                     np.random.seed(seed2 + 1000 + k)
-                    s4.run(n_total=c["n_total"], progress=bool(c.get("progress")), resume_state_path=sv["path"], save_every=1)
+                    s4.run(n_total=c["n_total"], progress=runs.prog(c), resume_state_path=sv["path"], save_every=1)
                     files = sorted((f for f in os.listdir(tmp2) if f.startswith("ck_") and "final" not in f and f.endswith(".state")),
                                    key=lambda f: int(f.split("_")[1].split(".")[0]))
                     if files:
@@ -221,7 +221,7 @@ def scenario(cfg, n_resume, seed2, second_gen=False):
                         pick = files[len(files) // 2]
                         it_pick = int(pick.split("_")[1].split(".")[0])
                         s5 = _build(c2, tmp2)[0]
-                        s5.run(n_total=c["n_total"], progress=bool(c.get("progress")), resume_state_path=os.path.join(tmp2, pick))
+                        s5.run(n_total=c["n_total"], progress=runs.prog(c), resume_state_path=os.path.join(tmp2, pick))
                         H5 = runs.history(s5)
                         out["second_gen"] = out.get("second_gen", 0) + 1
                         if digest(H5["u"][:it_pick]) != digest(H4["u"][:it_pick]) or [int(i) for i in H5["iter"]] != list(range(1, len(H5["iter"]) + 1)):
